@@ -1,7 +1,7 @@
 //! C11 — iterator operators equal their sequence definitions, with event traces:
 //! each source element pulled exactly once and in order, `@` / `?` lazy, callbacks
 //! applied exactly once per element they must examine.
-use crate::core::{self, par_fold};
+use crate::core::{self, guard, par_fold, Stop};
 use crate::report::{Report, Samples, Violation};
 use crate::val::canon;
 use serde_json::json;
@@ -706,6 +706,77 @@ fn float_and_string_folds() -> (u64, Vec<Violation>) {
     (n, out)
 }
 
+/// A pull that fails: every consumer over a source (or an upstream stage) that fails at the
+/// first, a middle or the last pull behaves like its sequence definition written as a loop over
+/// `it()` - the same error at the same moment (what was pulled and applied before is in the log,
+/// kept in a cell the error does not take away), or the same value when nothing fails.
+fn failing_pulls() -> (u64, u64, Vec<Violation>) {
+    use simplesl::variable::{Mut, Type, Variable};
+    use simplesl::{Code, Interpreter};
+    use std::sync::Arc;
+    const SRC: &str = "src := (a: [int]) -> () -> (bool, int) { i := mut 0; return () -> (bool, int) { i += 1; log += [100 + *i]; if *i > std.len(a) { return (false, 0) }; return (true, 10 / a[*i - 1]) } };";
+    const ARRAYS: &[&str] = &["[1, 2, 5]", "[0, 1, 2]", "[1, 0, 2]", "[1, 2, 0]", "[0; 0]", "[5, 5]", "[10, 1]"];
+    const STAGES: &[(&str, &str)] = &[
+        ("none", ""),
+        ("map failing on 2", " @ (v: int) -> int { log += [200 + v]; return 100 / (v - 2) }"),
+        ("filter failing on 10", " ? (v: int) -> bool { log += [300 + v]; return 10 / (v - 10) < 100 }"),
+        ("map then filter", " @ (v: int) -> int { log += [200 + v]; return 100 / (v - 2) } ? (v: int) -> bool { log += [300 + v]; return 1000 / (v - 50) < 0 || true }"),
+    ];
+    // (name, operator form, the definition as a loop over it())
+    const CONSUMERS: &[(&str, &str, &str)] = &[
+        ("$]", "it $]", "acc := mut [int] []; loop { (c, v) := it(); if !c { break }; acc += [v] }; *acc"),
+        ("$+", "it $+", "acc := mut 0; loop { (c, v) := it(); if !c { break }; acc += v }; *acc"),
+        ("$*", "it $*", "acc := mut 1; loop { (c, v) := it(); if !c { break }; acc *= v }; *acc"),
+        ("$&", "it $&", "acc := mut (0 - 1); loop { (c, v) := it(); if !c { break }; acc &= v }; *acc"),
+        ("$|", "it $|", "acc := mut 0; loop { (c, v) := it(); if !c { break }; acc |= v }; *acc"),
+        ("$ init f", "it $ 0 (a: int, e: int) -> int { log += [400 + e]; return a * 2 + e }", "acc := mut 0; loop { (c, v) := it(); if !c { break }; log += [400 + v]; acc = *acc * 2 + v }; *acc"),
+        ("for", "r := mut [int] []; for e in it { r += [e] }; *r", "r := mut [int] []; loop { (c, v) := it(); if !c { break }; r += [v] }; *r"),
+        ("partition", "it \\ (e: int) -> bool { log += [500 + e]; return e > 4 }", "yes := mut [int] []; no := mut [int] []; loop { (c, v) := it(); if !c { break }; log += [500 + v]; if v > 4 { yes += [v] } else { no += [v] } }; (*yes, *no)"),
+        ("$] then ~ then $+", "it $] ~ $+", "acc := mut [int] []; loop { (c, v) := it(); if !c { break }; acc += [v] }; s := mut 0; for e in *acc~ { s += e }; *s"),
+        ("map then $]", "it @ (e: int) -> int { log += [600 + e]; return e + 1 } $]", "acc := mut [int] []; loop { (c, v) := it(); if !c { break }; log += [600 + v]; acc += [v + 1] }; *acc"),
+    ];
+    let mut out = Vec::new();
+    let (mut n, mut failing) = (0u64, 0u64);
+    for arr in ARRAYS {
+        for (sname, stage) in STAGES {
+            for (cname, op_form, loop_form) in CONSUMERS {
+                let mut outcomes = Vec::new();
+                for body in [op_form, loop_form] {
+                    let log = Arc::new(Mut { var_type: "mut [int]".parse::<Type>().unwrap().mut_element_type().unwrap(), variable: Variable::from(Vec::<Variable>::new()).into() });
+                    let mut interp = Interpreter::with_stdlib();
+                    interp.insert("log".into(), Variable::Mut(log.clone()));
+                    let text = format!("{SRC} it := src({arr}){stage}; {body}");
+                    let res = match guard(|| Code::parse(&interp, &text).map(|c| c.exec())) {
+                        Ok(Ok(Ok(v))) => crate::val::canon(&v),
+                        Ok(Ok(Err(e))) => format!("error:{}", core::exec_error_kind(&e)),
+                        Ok(Err(e)) => format!("rejected:{}", core::error_kind(&e)),
+                        Err(Stop::Panic(p)) => format!("PANIC {} @{}", p.short_msg(), p.file()),
+                        Err(Stop::Exhausted) => "exhausted".into(),
+                    };
+                    let logged = log.variable.read().map(|g| crate::val::canon(&g)).unwrap_or_else(|_| "<poisoned>".into());
+                    outcomes.push((text, res, logged));
+                }
+                n += 1;
+                let (op, def) = (&outcomes[0], &outcomes[1]);
+                if def.1.starts_with("rejected") || def.1.starts_with("PANIC") {
+                    out.push(Violation { sig: format!("C11|failing-pull|definition-does-not-run|{cname}"), detail: json!({"kind": "program", "stdlib": true, "text": def.0, "observed": def.1}) });
+                    continue;
+                }
+                if def.1.starts_with("error:") {
+                    failing += 1;
+                }
+                if op.1 != def.1 || op.2 != def.2 {
+                    out.push(Violation {
+                        sig: format!("C11|failing-pull|{cname}|stage={sname}|source={arr}"),
+                        detail: json!({"kind": "program", "stdlib": true, "text": op.0, "note": "`log` is a cell the host put into the interpreter before the run", "observed": {"result": op.1, "log": op.2}, "the_definition_as_a_loop": def.0, "expected": {"result": def.1, "log": def.2}}),
+                    });
+                }
+            }
+        }
+    }
+    (n, failing, out)
+}
+
 pub fn run(tier: &str) -> i32 {
     let thorough = tier == "thorough";
     let mut report = Report::new("C11", tier);
@@ -784,6 +855,9 @@ pub fn run(tier: &str) -> i32 {
         json!({"program_tail": program(&j.source, &j.stages, j.consumer, j.pulls, j.twice).lines().rev().take(4).collect::<Vec<_>>(), "expected_trace": reference(&j.source, &j.stages, j.consumer, j.pulls).1})
     });
     let folds = core::on_big_stack(float_and_string_folds);
+    let failing = core::on_big_stack(failing_pulls);
+    assert!(failing.1 * 4 > failing.0, "failing-pull family: too few failing cases ({} of {})", failing.1, failing.0);
+    report.violations(failing.2);
     report.violations(folds.1);
     let Acc { programs, events, outcomes, violations } = acc;
     report.violations(violations);
@@ -792,6 +866,8 @@ pub fn run(tier: &str) -> i32 {
         "transitions": events + programs,
         "traces_validated_against_impl": programs,
         "programs": programs,
+        "failing_pull_cases (7 sources x 4 upstream stages x 10 consumers, operator form against its definition as a loop over it(); result and log)": failing.0,
+        "failing_pull_cases_in_which_a_pull_fails": failing.1,
         "float_and_string_fold_cases (sequences of length 0..=4 over 9 floats + 3 long ones x 4 routes, bit-exact against the left fold)": folds.0,
         "reference_events_compared": events,
         "distinct_outcomes": outcomes.len(),
